@@ -1,4 +1,9 @@
-"""findings_C14.py — trigger predicates of the open C14 findings (findings/C14.entries.json).
+"""findings_C14.py — trigger predicates of the C14 findings.
+
+All six findings this check recorded were repaired in /repo (findings/C14.fixed.json; reproducers in
+corpus/C14, run first on every run and expected to pass): findings/C14.entries.json is empty and nothing is
+attributed to a known finding any more — a recurrence of any of them is a VIOLATION.  The predicates stay as
+the definition of what each finding covered (they are what would be listed again if a defect were re-opened).
 
 Each predicate decides from the *case* (problem text, steps before the call, the call and its argument
 specification), never from the outcome, and — where there is a triggering feature of the argument —
